@@ -23,7 +23,7 @@ open Comdex Comdex.Vault Comdex.C01
 /-- **Supply = principal** (histories without auction settlement, liquidation seizures included): the supply of every
 denom equals the principal recorded on open vaults, stable-mint vaults and vaults awaiting auction, plus whatever was
 minted outside the vault module (`extSupply`, zero for an asset that is minted only through vaults). -/
-theorem supply_eq_principal (cfg : Nat → Option Product) (hc : CfgOk cfg) (h : History) (hu : UsersOk h) (hne : NoEsmStable h) (hn : NoSettle h)
+theorem supply_eq_principal (cfg : Nat → Option Product) (hc : CfgOk cfg) (h : History) (hu : UsersOk h) (hne : EsmRegular h) (hn : NoSettle h)
     (d : Nat) :
     let s := runAll cfg State.init h
     s.supply d = principalRecorded cfg s d + s.extSupply d :=
@@ -32,7 +32,7 @@ theorem supply_eq_principal (cfg : Nat → Option Product) (hc : CfgOk cfg) (h :
 /-- **Supply ≤ principal** after EVERY history — vault messages, liquidation seizures AND auction settlements (which
 burn principal + interest + closing fee of the seized vault): the circulating supply never exceeds the recorded
 principal of open, stable-mint and awaiting-auction vaults (plus outside funding). -/
-theorem supply_le_principal (cfg : Nat → Option Product) (hc : CfgOk cfg) (h : History) (hu : UsersOk h) (hne : NoEsmStable h) (d : Nat) :
+theorem supply_le_principal (cfg : Nat → Option Product) (hc : CfgOk cfg) (h : History) (hu : UsersOk h) (hne : EsmRegular h) (d : Nat) :
     let s := runAll cfg State.init h
     s.supply d ≤ principalRecorded cfg s d + s.extSupply d := by
   obtain ⟨G', h', g, _⟩ := invG_always cfg hc h hu hne Gaps.zero State.init ((invG_zero cfg _).mpr (init_inv cfg hc)) goodGaps_zero
@@ -45,7 +45,7 @@ theorem supply_le_principal (cfg : Nat → Option Product) (hc : CfgOk cfg) (h :
 moves by exactly the change of recorded principal (plus outside funding). Interest and closing-fee transfers do not
 touch recorded principal, hence do not touch supply. -/
 theorem supply_moves_with_principal (cfg : Nat → Option Product) (hc : CfgOk cfg) (s s' : State) (e : Env) (m : Msg)
-    (hm : m.userOk) (hns : m.notSettle) (hne : m.notEsmStable) (hinv : Inv cfg s) (h : step cfg s e m = some s') (d : Nat) :
+    (hm : m.userOk) (hns : m.notSettle) (hne : m.esmRegular) (hinv : Inv cfg s) (h : step cfg s e m = some s') (d : Nat) :
     s'.supply d - s.supply d =
       (principalRecorded cfg s' d - principalRecorded cfg s d) + (s'.extSupply d - s.extSupply d) := by
   have h1 := hinv.2.2.2.2.1 d
